@@ -248,6 +248,20 @@ int main(void)
 	PROP(vf_data.keys_in_block < KPB, "Inv of capture: the current key block has room for the next key");
 	PROP(vf_data.hdr.state == (IN.state & ~1U), "only the FINISHED flag is cleared");
 	PROP(vf_data.hdr.f_compat == IN.f_compat, "compat features kept");
+#if OFFQ == 2 && !defined(FOLLOWUP) && !defined(FOLLOWUP_SAVED)
+	/* offset >= one undo block: undo_write_tdb() tests id = fs-relative undo block + offset/tdb_data_size (the
+	 * convention the capture harness verifies it under); the rebuilt map must use the same ids */
+	{
+		unsigned long long q = IN.fs_offset / TDS;
+		for (i = 0; i < NW; i++) {
+			unsigned char want = 0;
+			for (j = 0; j < NW; j++)
+				if ((unsigned long long) j + q == (unsigned long long) i)
+					want = exp_w[j];
+			PROP(vf_W[i] == want, "block map rebuilt with the ids undo_write_tdb tests (fs-relative undo block + offset/tdb_data_size)");
+		}
+	}
+#endif
 #if OFFQ != 2
 	/* offset < one undo block: the file format's numbering (fs-relative) and undo_write_tdb's (absolute) coincide */
 	for (i = 0; i < NW; i++)
